@@ -565,8 +565,9 @@ fn derive_func_op_shape(def: &FuncOpDef, symbol_table: &mut BTreeMap<Rc<str>, Sh
                 Shape::List(_) => {}
                 // A function argument or a narrowed shape, an element of a
                 // nested list for one, can be a list, a tuple or a string,
-                // and so can the result. We can not tell which it is.
-                Shape::Hole(_) | Shape::Narrowed(_) => {
+                // and so can the result. We can not tell which it is. An
+                // import is a tuple whose fields we do not look at here.
+                Shape::Hole(_) | Shape::Narrowed(_) | Shape::Import(_) => {
                     return Shape::Narrowed(NarrowedShape {
                         pos: pos.clone(),
                         types: NarrowingShape::Any,
@@ -617,8 +618,9 @@ fn derive_func_op_shape(def: &FuncOpDef, symbol_table: &mut BTreeMap<Rc<str>, Sh
                     pos: pos.clone(),
                     types: NarrowingShape::Any,
                 }),
-                // A function argument can be any of the three.
-                Shape::Hole(_) | Shape::Narrowed(_) => Shape::Narrowed(NarrowedShape {
+                // A function argument can be any of the three, an import
+                // is a tuple.
+                Shape::Hole(_) | Shape::Narrowed(_) | Shape::Import(_) => Shape::Narrowed(NarrowedShape {
                     pos: pos.clone(),
                     types: NarrowingShape::Any,
                 }),
@@ -643,7 +645,7 @@ fn derive_func_op_shape(def: &FuncOpDef, symbol_table: &mut BTreeMap<Rc<str>, Sh
             // target must be a list, a tuple or a string
             match &target_shape {
                 Shape::List(_) | Shape::Tuple(_) | Shape::Str(_) | Shape::Hole(_) => {}
-                Shape::Narrowed(_) => {}
+                Shape::Narrowed(_) | Shape::Import(_) => {}
                 Shape::TypeErr(_, _) => return target_shape,
                 _ => {
                     return Shape::TypeErr(
